@@ -1,16 +1,17 @@
 CONSTANTS
   W = 1
   Limit = 1
-  L = 2
-  Uds = {2}
+  L = 1
+  Uds = {1}
   MaxConns = 2
   MaxFaults = 0
-  MaxCmds = 3
+  MaxCmds = 2
   MaxErrs = 1
   MaxBare = 0
   WakeAt = 2
   IgnoreUnknownIdx = TRUE
   UnlinkOnDeregister = FALSE
+  ResumeClearsBackoff = TRUE
   IncBeforeSend = FALSE
   NoClearOnLimit = FALSE
   ResumeSkipsAcceptAll = FALSE
